@@ -211,9 +211,18 @@ AREA_FIELDS = {
 }
 
 
+def str_canon(x):
+    """a decoded string as hex of its code points; 'cp:..' when one is above 255 (cannot be right)"""
+    if not isinstance(x, str):
+        return 'not-a-str:%s' % type(x).__name__
+    if all(ord(c) < 256 for c in x):
+        return x.encode('latin-1').hex()
+    return 'cp:' + ','.join(str(ord(c)) for c in x)
+
+
 def obs_field(f):
     return {'off': f.offset, 'type': f.field_type, 'len': f.length, 'raw': bytes(bytearray(f.raw)).hex(),
-            'str': f.string.encode('latin-1').hex()}
+            'str': str_canon(f.string)}
 
 
 def obs_area(a, name):
@@ -353,7 +362,14 @@ def c_err(name):
 
 
 def c_obs_field(f):
-    return '(mkF %d %d %d %s %s)' % (f['off'], f['type'], f['len'], hexs(f['raw']), hexs(f['str']))
+    st = f['str']
+    if st.startswith('cp:'):
+        cst = C.c_list(st[3:].split(','))
+    elif st.startswith('not-a-str'):
+        cst = '[999999]'
+    else:
+        cst = hexs(st)
+    return '(mkF %d %d %d %s %s)' % (f['off'], f['type'], f['len'], hexs(f['raw']), cst)
 
 
 def c_obs_area(a):
@@ -418,16 +434,54 @@ def c_sinv(inv):
 # =============================================================================
 # generators
 # =============================================================================
-def rand_field(rng, small=False, custom=False, kinds=('bin', 'bcd', 'six', 'text')):
+# content of binary / 8-bit fields that a decoder with ANY interpretation beyond chr(byte) gets wrong:
+# escape sequences of every flavour, format directives, control characters, high bytes, broken UTF-8
+EDGE_CONTENT = [
+    b'\\u0037', b'Board \\u0037', b'\\U0001F600', b'\\U0001f600!', b'\\u', b'\\U', b'\\u12', b'\\U0000', b'\\uD800',
+    b'\\x41', b'\\x4', b'\\n', b'\\t', b'\\0', b'\\101', b'\\N{DASH}', b'\\', b'\\\\', b'\\\\u0041', b'a\\', b'\\\\srv\\upload',
+    b'C:\\Users\\u', b'C:\\Users\\Public', b'D:\\Updates\\x86', b'%s', b'%d%%', b'%(x)s', b'{0}', b'{}', b'{name!r}', b'$HOME', b'`id`',
+    b'\x00', b'\x00\x00', b'ab\x00cd', b'\r\n', b'line1\nline2', b'\x1b[0m', b'\x7f', b'\x80', b'\xff', b'\xfe\xff', b'\xff\xfe',
+    b'\xef\xbb\xbf', b'\xc3\xa9', b'\xc3', b'\xe2\x82', b'\xf0\x9f\x98\x80', b'\xed\xa0\x80', b'\xc0\x80', b'\x80\x81\x82\xfd',
+    b'caf\xe9', b'\xa0price\xa4', b'&amp;', b'<b>', b'"quoted"', b"it's", b'a,b;c', b' lead', b'trail ', b'\xc1', b'\xc1\xc1',
+]
+BIASED = b'\\\\\\\\uUuUxxNn0123456789abcdefABCDEF%%{{}}s$\x00\r\n'
+
+
+def biased_bytes(rng, n):
+    """n bytes biased towards backslash, u U x N, hex digits, % { } and a few controls"""
+    return bytes(rng.choice(BIASED) if rng.random() < 0.75 else rng.randrange(256) for _ in range(n))
+
+
+def edge_bytes(rng, hi):
+    """an entry of EDGE_CONTENT, bare or embedded in a longer field of at most hi bytes"""
+    e = rng.choice(EDGE_CONTENT)
+    if len(e) > hi:
+        return biased_bytes(rng, hi)
+    r = rng.random()
+    if r < 0.4:
+        return e
+    pre = biased_bytes(rng, rng.randrange(0, max(1, (hi - len(e)) // 2 + 1))) if r < 0.7 else b'Board '[:max(0, hi - len(e))]
+    post = biased_bytes(rng, rng.randrange(0, max(1, hi - len(e) - len(pre) + 1)))
+    return (pre + e + post)[:hi]
+
+
+def rand_field(rng, small=False, custom=False, kinds=('bin', 'bcd', 'six', 'text'), edgy=0.35):
     kind = rng.choice(kinds)
     hi = 6 if small else 63
     n = rng.randrange(0, hi + 1) if rng.random() < 0.5 else rng.randrange(0, min(hi, 9) + 1)
-    if kind == 'bin':
-        return (kind, bytes(rng.randrange(256) for _ in range(n)))
-    if kind == 'text':
-        if custom and n == 1:
-            n = 2                          # 0xC1 is the end-of-fields byte
-        return (kind, ''.join(chr(rng.randrange(256)) for _ in range(n)))
+    if kind in ('bin', 'text'):
+        r = rng.random()
+        if r < edgy / 2:
+            b = edge_bytes(rng, max(hi, 12))
+        elif r < edgy:
+            b = biased_bytes(rng, n)
+        else:
+            b = bytes(rng.randrange(256) for _ in range(n))
+        if kind == 'bin':
+            return (kind, b)
+        if custom and len(b) == 1:
+            b = b + b'\\'                  # 0xC1 is the end-of-fields byte: no 1-byte text custom field
+        return (kind, b.decode('latin-1'))
     if kind == 'bcd':
         return (kind, ''.join(rng.choice(BCD_ALPHABET) for _ in range(2 * n)))
     # six: n bytes hold 8n//6 characters; a character count of 3 mod 4 is not expressible
@@ -768,6 +822,24 @@ def run(ctx):
                         key = KEY_F15B
                     oracle('field', {'data': data.hex(), 'off': off, 'kind': ik, 'expect': exp}, key)
                 D.add(('tls', data, off), n > 0, 'field-' + kind)
+    # binary / 8-bit fields whose content looks like something a decoder might interpret: every byte value
+    # as a 1-byte field, every pair (0x5c, x) and (x, 0x5c), the escape corpus bare and embedded, biased random
+    edge = [bytes([x]) for x in range(256)] + [bytes([0x5c, x]) for x in range(256)] + [bytes([x, 0x5c]) for x in range(256)]
+    edge += list(EDGE_CONTENT)
+    edge += [edge_bytes(rng, 63) for _ in range(150 if q else 1500)]
+    edge += [biased_bytes(rng, rng.randrange(2, 64)) for _ in range(150 if q else 1500)]
+    for i, b in enumerate(edge):
+        for kind in ('text', 'bin'):
+            f = (kind, b if kind == 'bin' else b.decode('latin-1'))
+            off = i % 3
+            data = bytes(rng.randrange(256) for _ in range(off)) + enc_field(f) + bytes(rng.randrange(256) for _ in range(i % 2))
+            exp = expect_field(off, f)
+            for ik in (('bytes', 'array') if kind == 'text' or i % 4 == 0 else ('bytes',)):
+                got = tls_impl(data, off, ik)
+                add('chk_tls %s %d %s' % (C.c_hex(data), off, c_outcome(got, c_obs_field)), ('tls-edge', kind, ik, data.hex()))
+                oracle('field', {'data': data.hex(), 'off': off, 'kind': ik, 'expect': exp},
+                       'TypeLengthString:%s:content-interpreted' % kind)
+        D.add(('tlse', b), True, 'field-edge-content')
     # malformed fields: arbitrary bytes incl. invalid BCD digits, truncated data, offset at/after the end
     for _ in range(150 if q else 1500):
         n = rng.randrange(0, 12)
@@ -787,6 +859,24 @@ def run(ctx):
     # single-encoding inventories (so that a defect in one encoding cannot hide another)
     for kinds in (('bin',), ('text',), ('bcd',), ('six',), ('bin', 'text')):
         invs += [rand_inventory(rng, small=True, kinds=kinds, subset=rng.choice([2, 4, 8, 14, 30])) for _ in range(6 if q else 40)]
+    # every binary / 8-bit field of every area, custom fields included, from the escape corpus / biased generator
+    for k in range(40 if q else 400):
+        inv = rand_inventory(rng, small=True, kinds=('text', 'bin') if k % 4 else ('text',), subset=[2, 4, 8, 14, 30, 31][k % 6])
+        for name in ('chassis', 'board', 'product'):
+            a = inv[name]
+            if a is None:
+                continue
+            if not a['custom']:
+                a['custom'] = [('text', 'x\\')]
+            for lst, cust in ((a['fields'], False), (a['custom'], True)):
+                for j in range(len(lst)):
+                    knd = lst[j][0]
+                    b = edge_bytes(rng, 16) if rng.random() < 0.7 else biased_bytes(rng, rng.randrange(0, 10))
+                    if knd == 'text' and cust and len(b) == 1:
+                        b += b'\\'
+                    lst[j] = (knd, b if knd == 'bin' else b.decode('latin-1'))
+        if starts_ok(inv):
+            invs.append(inv)
     for inv in invs:
         img, layout = enc_inventory(inv)
         exp = expect_inventory(inv, layout)
@@ -981,7 +1071,7 @@ def run(ctx):
     res.evaluations += len(terms)
     res.distinct_nontrivial = D.distinct
     res.histogram = dict(D.hist, **{'altered:' + k: v for k, v in region_hist.items()})
-    res.rule = ('fields: every encoding x every length 0..63 as bytes and array + malformed; inventories from the independent '
+    res.rule = ('fields: every encoding x every length 0..63 as bytes and array + malformed; binary/8-bit content: every 1-byte value, every pair with 0x5c, escape/format/control/high-byte/broken-UTF-8 corpus bare and embedded, random biased to \\ u U x % {, also inside every area and custom field; inventories from the independent '
                 'encoder: all 32 area subsets, random field encodings/lengths, 0..8 custom fields, 1..8 multi-records of 0..255 '
                 'bytes incl. PICMG, parsed as bytes, array and file and compared with the encoded values (oracle) and with the '
                 'model in Coq; the Coq encoder must give the same bytes; single-byte alterations: per image every position x 3-4 '
